@@ -508,11 +508,18 @@ fn run_case(ctx: &Ctx, case: &Case) {
         Case::Sink { dir, msg, v1 } => run_sink(*dir, msg, *v1),
     });
     match r {
-        Ok(Ok((class, outcome))) => ctx.eval(&class, &outcome),
+        Ok(Ok((class, outcome))) => {
+            if !class.starts_with("bytes") {
+                *OUTCOMES.lock().unwrap().entry(format!("{class} => {outcome}")).or_insert(0) += 1;
+            }
+            ctx.eval(&class, &outcome)
+        }
         Ok(Err(msg)) => ctx.discrepancy(None, &msg, case),
         Err(p) => ctx.discrepancy(None, &format!("panic: {p}"), case),
     }
 }
+/// every (class, outcome) pair of the message / tag / sink families with its count (the engine's histogram keeps the top 40 only)
+static OUTCOMES: std::sync::Mutex<std::collections::BTreeMap<String, u64>> = std::sync::Mutex::new(std::collections::BTreeMap::new());
 
 // ---------------- enumeration ----------------
 fn datagram_lens(ctx: &Ctx) -> Vec<usize> {
@@ -740,5 +747,6 @@ fn main() {
         }
     }
     par_for_each(&cases, |c| run_case(&ctx, c));
+    ctx.extra("message_tag_sink_outcomes", &*OUTCOMES.lock().unwrap());
     ctx.finish();
 }
